@@ -5,7 +5,7 @@
 From Coq Require Import String List NArith ZArith Bool Lia.
 From J5V.lib Require Import Outcome Json JsonPrint.
 From J5V.model Require Import CodecTypes CodecEnc CodecEncSpec.
-From J5V.proofs Require Import CodecEncProofs.
+From J5V.proofs Require Import CodecEncProofs CodecEncEmbed.
 Import ListNotations.
 Local Open Scope N_scope.
 
@@ -41,5 +41,32 @@ Section Inner.
     destruct (encode_tree fmt_float (inner_n k) e Hfloat IH (Hreg_flat _ _ _ Er) root m t H
                 (Hpayload_raw _ _ _ _ _ Er Eu)) as (J & Hw & -> & _).
     exists J. split; [exact Hw|reflexivity].
+  Qed.
+
+  (* Without any premise on the payload messages: the inner encoding is a JSON text, and its tree
+     satisfies the wire format of the payload type for the payload message (so the "value" member of
+     an Any whose payload is stored as proto bytes is the J5 JSON of that message, to any depth) *)
+  Theorem inner_n_wire : forall n tn pb t, inner_n n tn pb = Ok t ->
+    exists e root pm J, reg tn = Some (e, root) /\ unmarshal tn pb = Some pm /\
+      strict_parse t = Some J /\ wire_format fmt_float e root pm J.
+  Proof.
+    induction n as [|k IH]; intros tn pb t H; cbn [inner_n] in H; [discriminate|].
+    destruct (reg tn) as [[e root]|] eqn:Er; [|discriminate].
+    destruct (unmarshal tn pb) as [pm|] eqn:Eu; [|discriminate].
+    assert (Hk : forall tn' pb' t', inner_n k tn' pb' = Ok t' -> json_text t').
+    { intros tn' pb' t' H'. destruct (IH _ _ _ H') as (_ & _ & _ & J' & _ & _ & HJ' & _). exists J'. exact HJ'. }
+    destruct (encode_wellformed_full fmt_float (inner_n k) e Hfloat Hk (Hreg_flat _ _ _ Er) root pm t H) as (J & HJ & Hw).
+    exists e, root, pm, J. repeat split; assumption.
+  Qed.
+
+  Corollary inner_n_json : forall n tn pb t, inner_n n tn pb = Ok t -> json_text t.
+  Proof. intros n tn pb t H. destruct (inner_n_wire n tn pb t H) as (_ & _ & _ & J & _ & _ & HJ & _). exists J. exact HJ. Qed.
+
+  (* C08 with the inner encoding being the encoder itself: no premise about any_inner is left *)
+  Theorem encode_wellformed_inner n env root m txt : oneofs_flat env ->
+    encode fmt_float (inner_n n) env root m = Ok txt ->
+    exists J, strict_parse txt = Some J /\ wire_format fmt_float env root m J.
+  Proof.
+    intros Hflat H. exact (encode_wellformed_full fmt_float (inner_n n) env Hfloat (inner_n_json n) Hflat root m txt H).
   Qed.
 End Inner.
